@@ -271,7 +271,7 @@ Record walk_post (P : fid -> Prop) (cu : docs) (f : fid) (w0 : world) (l : list 
   wk_log : w_log w = w_log w0;
   wk_err : err = option_map DMissing (snd (reach cu l));
   wk_tgt : forall q, In q (fst (reach cu l)) ->
-           exists t, live_id w q = Some t /\ In t (w_imports w f) /\ In f (w_rev w t) /\
+           exists t, live_id w q = Some t /\ In t (w_imports w f) /\ In f (w_rev w t) /\ w_uris w t <> None /\
                      (w_an w0 t <> None \/ exists c, In (t, mkA Parsed c []) news /\ w_files w t = Some (q, c));
   wk_imp_f : forall t, In t (w_imports w f) ->
              In t (w_imports w0 f) \/ exists q, In q (fst (reach cu l)) /\ live_id w q = Some t;
@@ -385,14 +385,16 @@ Proof.
         - cbn. rewrite Sl. exact wk_log0.
         - rewrite RS'. reflexivity.
         - rewrite RS'. cbn. intros q' Hq'. apply in_app_or in Hq'. destruct Hq' as [Hq'|[<-|[]]].
-          + destruct (wk_tgt0 q' Hq') as [t' [A [B [C D]]]]. exists t'.
+          + destruct (wk_tgt0 q' Hq') as [t' [A [B [C [U D]]]]]. exists t'.
             split; [apply Lv4; exact A|]. split; [apply Im4; right; exact B|].
             split; [apply Rv4; right; exact C|].
+            split. { unfold w4, w3, w2. cbn. unfold upd. destruct (Nat.eqb t' t); [discriminate|]. rewrite Su. exact U. }
             destruct D as [D|[c [D1 D2]]]; [left; exact D|]. right. exists c. split.
             * destruct Hn' as [[-> _]|[-> _]]; [exact D1|apply in_or_app; left; exact D1].
             * apply (fx_files _ _ X1). exact D2.
           + exists t. split; [exact Lt|]. split; [apply Im4; left; reflexivity|].
             split; [apply Rv4; left; auto|].
+            split. { unfold w4, w3, w2. cbn. rewrite upd_eq. discriminate. }
             destruct Hn' as [[-> Ha]|[-> Ha]]; [left; exact Ha|]. right. exists ct. split.
             * apply in_or_app. right. left. reflexivity.
             * exact Ft1.
@@ -504,6 +506,12 @@ Qed.
 Lemma own_of_spec : forall cu src, own_of src (option_map DMissing (snd (reach cu (c_imports src)))) = own_diags cu src.
 Proof. intros. unfold own_of, own_diags. destruct (snd (reach cu (c_imports src))); reflexivity. Qed.
 
+(* [g] is the current id of some path *)
+Definition lvi (w : world) (g : fid) : Prop := exists q, live_id w q = Some g.
+
+Lemma lvi_fext : forall w w' g, fext w w' -> lvi w g -> lvi w' g.
+Proof. intros w w' g X [q H]. exists q. apply (fx_live _ _ X). exact H. Qed.
+
 Record fill_post (Q : fid -> Prop) (cu : docs) (w : world) (f : fid) (src : content) (w5 : world) (own : list diag) : Prop := {
   fp_ginv : GInv w5;
   fp_link : Link cu w5;
@@ -515,7 +523,7 @@ Record fill_post (Q : fid -> Prop) (cu : docs) (w : world) (f : fid) (src : cont
             (Q g /\ a_state ag <> Typechecked /\ w_an w g <> None) \/ SInv1 cu w5 g ag \/
             (w_an w g = None /\ a_state ag = Parsed /\ is_perr (a_src ag) = false /\ In g (w_imports w5 f));
   fp_tgt : forall q, In q (fst (reach cu (c_imports src))) ->
-           exists t, live_id w5 q = Some t /\ In t (w_imports w5 f) /\ In f (w_rev w5 t) /\ w_an w5 t <> None;
+           exists t, live_id w5 q = Some t /\ In t (w_imports w5 f) /\ In f (w_rev w5 t) /\ w_an w5 t <> None /\ w_uris w5 t <> None;
   fp_stop : forall q, snd (reach cu (c_imports src)) = Some q -> In f (w_failed w5 q);
   fp_old : forall x ax, x <> f -> w_an w x = Some ax -> w_an w5 x = Some ax;
   fp_imp_o : forall x, x <> f -> w_imports w5 x = w_imports w x;
@@ -526,7 +534,10 @@ Record fill_post (Q : fid -> Prop) (cu : docs) (w : world) (f : fid) (src : cont
   fp_pub : w_pub w5 = w_pub w;
   fp_log : w_log w5 = w_log w;
   fp_notc : forall r, NoTC w r -> r < rk w f -> NoTC w5 r;
-  fp_tc_old : forall x ax, x <> f -> w_an w5 x = Some ax -> a_state ax = Typechecking -> w_an w x = Some ax
+  fp_tc_old : forall x ax, x <> f -> w_an w5 x = Some ax -> a_state ax = Typechecking -> w_an w x = Some ax;
+  fp_rev_new : forall t g, In g (w_rev w5 t) -> In g (w_rev w t) \/ g = f;
+  fp_failed_new : forall q g, In g (w_failed w5 q) -> In g (w_failed w q) \/ g = f;
+  fp_an_new : forall g, w_an w5 g <> None -> w_an w g <> None \/ (lvi w5 g /\ w_uris w5 g <> None)
 }.
 
 Lemma fill_block_spec : forall Q cu w f pf a w5 own,
@@ -598,9 +609,9 @@ Proof.
   assert (Ff1 : w_files w1 f = Some (pf, src)) by (apply (fx_files _ _ wk_fext0); exact Ff).
   (* every target has an analysis in w5 *)
   assert (Tg : forall q, In q (fst (reach cu (c_imports src))) ->
-               exists t, live_id w5 q = Some t /\ In t (w_imports w5 f) /\ In f (w_rev w5 t) /\ w_an w5 t <> None).
-  { intros q Hq. destruct (wk_tgt0 q Hq) as [t [A1 [A2 [A3 A4]]]]. exists t.
-    rewrite Lv. rewrite Im5, Rv5. split; [exact A1|]. split; [exact A2|]. split; [exact A3|].
+               exists t, live_id w5 q = Some t /\ In t (w_imports w5 f) /\ In f (w_rev w5 t) /\ w_an w5 t <> None /\ w_uris w5 t <> None).
+  { intros q Hq. destruct (wk_tgt0 q Hq) as [t [A1 [A2 [A3 [AU A4]]]]]. exists t.
+    rewrite Lv. rewrite Im5, Rv5, Ur5. split; [exact A1|]. split; [exact A2|]. split; [exact A3|]. split; [|exact AU].
     destruct A4 as [A4|[c [A4 _]]].
     - apply Pres. exact A4.
     - destruct (wk_news0 _ _ A4) as [_ [Hne _]]. destruct (A5 t Hne) as [[a' [_ H]]|[H _]]; [congruence|].
@@ -619,7 +630,7 @@ Proof.
       + (* x = f: a target *)
         destruct (wk_imp_f0 t H) as [Ho|[q [Hq Hl']]].
         * destruct (gp_imp _ _ G f t Ho) as [_ [_ [[]|[D1 D2]]]]. split; [apply wk_rev_mono0; exact D1|apply Pres; exact D2].
-        * destruct (Tg q Hq) as [t' [T1 [T2 [T3 T4]]]]. rewrite Lv in T1. rewrite Hl' in T1. inv T1.
+        * destruct (Tg q Hq) as [t' [T1 [T2 [T3 [T4 _]]]]]. rewrite Lv in T1. rewrite Hl' in T1. inv T1.
           rewrite Rv5 in T3. split; [exact T3|exact T4].
       + split; [exact C3|]. apply Pres. rewrite <- wk_an0. exact C4.
     - intros q g H. rewrite Fl5 in H. apply Fl4 in H. destruct H as [H|[-> _]]; [|congruence].
@@ -680,6 +691,15 @@ Proof.
   - intros x ax Hn Hax Hs. destruct (A5 x Hn) as [[a' [H1 H2]]|[_ H2]].
     + rewrite H2 in Hax. inv Hax. destruct (wk_news0 _ _ H1) as [_ [_ [q [c [_ [-> _]]]]]]. discriminate.
     + congruence.
+  - intros t g H. rewrite Rv5 in H. destruct (wk_rev0 t g H) as [H'|[H' _]]; auto.
+  - intros q g H. rewrite Fl5 in H. apply Fl4 in H. destruct H as [H|[H _]]; auto.
+  - intros g Hg. destruct (Nat.eq_dec g f) as [->|Hn]; [left; exact Haf|].
+    destruct (A5 g Hn) as [[a' [H1 _]]|[_ H2]]; [|left; congruence].
+    destruct (wk_news0 _ _ H1) as [_ [_ [q0 [c [_ [_ Hin]]]]]].
+    destruct (wk_imp_f0 g Hin) as [Ho|[q [Hq Hl']]].
+    + left. destruct (gp_imp _ _ G f g Ho) as [_ [_ [[]|[_ D]]]]. exact D.
+    + right. destruct (wk_tgt0 q Hq) as [t [T1 [_ [_ [T4 _]]]]]. rewrite Hl' in T1. inv T1.
+      split; [exists q; rewrite Lv; exact Hl'|rewrite Ur5; exact T4].
 Qed.
 
 (* ------------------------------------------------------------------ typecheck *)
@@ -701,7 +721,10 @@ Record tc_post (Q : fid -> Prop) (cu : docs) (w : world) (f : fid) (w' : world) 
   tp_imports : forall x t, In t (w_imports w x) -> In t (w_imports w' x);
   tp_uris : forall x p, w_uris w x = Some p -> w_uris w' x = Some p;
   tp_pub : w_pub w' = w_pub w;
-  tp_log : w_log w' = w_log w
+  tp_log : w_log w' = w_log w;
+  tp_rev_new : forall t g, In g (w_rev w' t) -> In g (w_rev w t) \/ g = f \/ (lvi w' g /\ w_uris w' g <> None);
+  tp_failed_new : forall q g, In g (w_failed w' q) -> In g (w_failed w q) \/ g = f \/ (lvi w' g /\ w_uris w' g <> None);
+  tp_an_new : forall g, w_an w' g <> None -> w_an w g <> None \/ (lvi w' g /\ w_uris w' g <> None)
 }.
 
 Lemma NoTC_mono : forall w r r', NoTC w r -> r' <= r -> NoTC w r'.
@@ -780,7 +803,10 @@ Proof.
         (forall x t, In t (w_imports w5 x) -> In t (w_imports w' x)) /\
         (forall x p, w_uris w5 x = Some p -> w_uris w' x = Some p) /\
         w_pub w' = w_pub w5 /\ w_log w' = w_log w5 /\
-        (forall d, In d ds <-> exists t, In t pre /\ In d (contrib cu w5 t))).
+        (forall d, In d ds <-> exists t, In t pre /\ In d (contrib cu w5 t)) /\
+        (forall t g, In g (w_rev w' t) -> In g (w_rev w5 t) \/ (lvi w' g /\ w_uris w' g <> None)) /\
+        (forall q g, In g (w_failed w' q) -> In g (w_failed w5 q) \/ (lvi w' g /\ w_uris w' g <> None)) /\
+        (forall g, w_an w' g <> None -> w_an w5 g <> None \/ (lvi w' g /\ w_uris w' g <> None))).
     assert (HL : LI (pick (w_imports w5 f)) (fold_left (loop_step (typecheck cf pick disk k)) (pick (w_imports w5 f)) (Ok (w5, [])))).
     { apply fold_left_inv_in.
       - (* initially *)
@@ -790,9 +816,10 @@ Proof.
           right. right. split; [congruence|]. split; [|split; [exact A4|intros []]].
           destruct (fp_binv0 g ag Hg) as [[p Hp] _]. exists p, (a_src ag). auto. }
         repeat (split; [solve [auto]|]).
-        intros d. split; [intros []|intros [t [[] _]]].
+        split; [intros d; split; [intros []|intros [t [[] _]]]|].
+        split; [intros t g H; left; exact H|]. split; [intros q g H; left; exact H|]. intros g H; left; exact H.
       - (* one iteration *)
-        intros pre t st Htin [w' [ds [-> [G' [L' [B' [X' [Af' [If' [Pend [TcO [Stab [Pres [Rv [Fl [Im [Ur [Pb [Lg Dsc]]]]]]]]]]]]]]]]]]].
+        intros pre t st Htin [w' [ds [-> [G' [L' [B' [X' [Af' [If' [Pend [TcO [Stab [Pres [Rv [Fl [Im [Ur [Pb [Lg [Dsc [RvN [FlN AnN]]]]]]]]]]]]]]]]]]]]]].
         apply (proj1 (pick_in _ _)) in Htin.
         assert (Htin' : In t (w_imports w' f)) by (rewrite If'; exact Htin).
         destruct (gp_imp _ _ G' f t Htin') as [Ft [Rkt [[]|[Rvt Ant]]]].
@@ -816,6 +843,7 @@ Proof.
             intros Hin. apply in_app_or in Hin. destruct Hin as [Hin|[<-|[]]]; [contradiction|].
             destruct A2 as [p [c [A2 A2']]]. rewrite F5t in A2. inv A2. congruence. }
           repeat (split; [solve [auto]|]).
+          split; [|split; [exact RvN|split; [exact FlN|exact AnN]]].
           intros d. rewrite in_app_iff. rewrite Dsc. split.
           * intros [[t0 [H1 H2]]|[<-|[]]].
             -- exists t0. split; [apply in_or_app; left; exact H1|exact H2].
@@ -869,6 +897,25 @@ Proof.
           { rewrite (expect_t_unfold cu q (a_src at_) R Cq).
             destruct (tp_binv0 t at' At') as [[p' Hp'] _]. rewrite (fx_files _ _ tp_fext0 t _ Ftq) in Hp'. inv Hp'.
             apply same_diags_nil. rewrite H1. apply (s_diags _ _ _ _ Si' St'). }
+          assert (Lt' : lvi w' t /\ w_uris w' t <> None).
+          { split; [exists q; exact Lq|].
+            destruct (fp_tgt0 q Hq) as [t5 [T1 [_ [_ [_ T5]]]]].
+            apply (fx_live _ _ X') in T1. rewrite Lq in T1. inv T1.
+            destruct (w_uris w5 t5) as [pg|] eqn:Eu; [|congruence]. rewrite (Ur t5 pg Eu). discriminate. }
+          assert (LU : forall g, lvi w' g /\ w_uris w' g <> None -> lvi w'' g /\ w_uris w'' g <> None).
+          { intros g [H1 H2]. split; [eapply lvi_fext; eauto|].
+            destruct (w_uris w' g) as [pg|] eqn:Eu; [|congruence]. rewrite (tp_uris0 g pg Eu). discriminate. }
+          split; [|split; [|split]].
+          2:{ intros t0 g H. destruct (tp_rev_new0 t0 g H) as [H'|[->|H']].
+              - destruct (RvN t0 g H') as [H2|H2]; [left; exact H2|right; apply LU; exact H2].
+              - right. apply LU. exact Lt'.
+              - right. exact H'. }
+          2:{ intros q0 g H. destruct (tp_failed_new0 q0 g H) as [H'|[->|H']].
+              - destruct (FlN q0 g H') as [H2|H2]; [left; exact H2|right; apply LU; exact H2].
+              - right. apply LU. exact Lt'.
+              - right. exact H'. }
+          2:{ intros g H. destruct (tp_an_new0 g H) as [H'|H']; [|right; exact H'].
+              destruct (AnN g H') as [H2|H2]; [left; exact H2|right; apply LU; exact H2]. }
           intros d. rewrite Enil.
           assert (Cd : In d (contrib cu w5 t) <-> (is_nil (expect_t cu M q) = false /\ d = DImpType q)).
           { rewrite Ct. unfold imp_diag. rewrite Cq, Ep. destruct (is_nil (expect_t cu M q)); cbn; intuition congruence. }
@@ -884,7 +931,7 @@ Proof.
             -- intros [t0 [H1 H2]]. apply in_app_or in H1. destruct H1 as [H1|[<-|[]]]; [left; eauto|].
                right. apply Cd in H2. destruct H2 as [_ ->]. left. reflexivity. }
     destruct HL as [w6 [idiags [Eloop HL]]].
-    destruct HL as [G6 [L6 [B6 [X6 [Af6 [If6 [Pend6 [TcO6 [Stab6 [Pres6 [Rv6 [Fl6 [Im6 [Ur6 [Pb6 [Lg6 Dsc6]]]]]]]]]]]]]]]].
+    destruct HL as [G6 [L6 [B6 [X6 [Af6 [If6 [Pend6 [TcO6 [Stab6 [Pres6 [Rv6 [Fl6 [Im6 [Ur6 [Pb6 [Lg6 [Dsc6 [RvN6 [FlN6 AnN6]]]]]]]]]]]]]]]]]]].
     rewrite Eloop, Af6.
     destruct (finish_spec w6 f Typechecking src own idiags Af6) as [A8 [O8 [N8 [F8 [I8 [M8 [R8 [L8 [U8 [P8 Lg8]]]]]]]]]].
     set (w8 := complete_typechecking (add_tdiags w6 f idiags) f) in *.
@@ -902,6 +949,8 @@ Proof.
         split; [exact C1|]. split; [exact C2|]. right. split; [exact C3|apply Pres8; exact C4].
       - intros x Hx. apply gp_none0. destruct (Nat.eq_dec x f) as [->|Hn]; [congruence|]. rewrite O8 in Hx by exact Hn. exact Hx. }
     assert (Allpre : forall g, In g (w_imports w5 f) -> In g (pick (w_imports w5 f))) by (intros; apply pick_in; assumption).
+    assert (LU8 : forall g, lvi w6 g /\ w_uris w6 g <> None -> lvi w8 g /\ w_uris w8 g <> None).
+    { intros g [[q Hq] H2]. split; [exists q; rewrite Lv8; exact Hq|rewrite U8; exact H2]. }
     constructor; auto.
     + (* Link *) intros p. rewrite Lv8, F8. apply L6.
     + (* BInv *) intros x ax Hx. destruct (Nat.eq_dec x f) as [->|Hn].
@@ -933,7 +982,7 @@ Proof.
            destruct (fp_tgt0 q Hq) as [t [T1 [T2 _]]]. exists t. split; [apply pick_in; exact T2|].
            pose proof (fp_link0 q) as Lq. rewrite T1 in Lq. destruct Lq as [c [Fc _]].
            unfold contrib, path_of. rewrite Fc. exact Hd.
-      * intros _ q Hq. destruct (fp_tgt0 q Hq) as [t [T1 [T2 [T3 T4]]]]. exists t.
+      * intros _ q Hq. destruct (fp_tgt0 q Hq) as [t [T1 [T2 [T3 [T4 _]]]]]. exists t.
         split; [rewrite Lv8; apply (fx_live _ _ X6); exact T1|].
         split; [apply Pres8; apply Pres6; exact T4|].
         split; [rewrite R8; apply Rv6; exact T3|rewrite M8, If6; exact T2].
@@ -964,6 +1013,18 @@ Proof.
     + intros x p H. rewrite U8. apply Ur6. apply fp_uris0. exact H.
     + congruence.
     + congruence.
+    + intros t g H. rewrite R8 in H. destruct (RvN6 t g H) as [H'|H'].
+      * destruct (fp_rev_new0 t g H') as [H2| ->]; auto.
+      * right. right. apply LU8. exact H'.
+    + intros q g H. rewrite L8 in H. destruct (FlN6 q g H) as [H'|H'].
+      * destruct (fp_failed_new0 q g H') as [H2| ->]; auto.
+      * right. right. apply LU8. exact H'.
+    + intros g H. destruct (Nat.eq_dec g f) as [->|Hn]; [left; congruence|].
+      rewrite O8 in H by exact Hn.
+      destruct (AnN6 g H) as [H'|H']; [|right; apply LU8; exact H'].
+      destruct (fp_an_new0 g H') as [H2|[H2 H3]]; [left; exact H2|right].
+      apply LU8. split; [eapply lvi_fext; eauto|].
+      destruct (w_uris w5 g) as [pg|] eqn:Eu; [|congruence]. rewrite (Ur6 g pg Eu). discriminate.
   - (* Typechecking: excluded, the import graph has no cycle *)
     exfalso. specialize (N f a Ea Est). lia.
   - (* Typechecked: cached *)
@@ -1078,7 +1139,8 @@ Record inv_post (P : fid -> Prop) (cu : docs) (w0 : world) (acc : list fid) (w' 
   ip_sinv : SInvP P cu w';
   ip_frame : inv_frame w0 w';
   ip_acc : forall x, In x acc -> In x acc';
-  ip_acc' : forall x, In x acc' -> In x acc \/ (w_files w0 x <> None /\ w_an w' x = None)
+  ip_acc' : forall x, In x acc' -> In x acc \/ (w_files w0 x <> None /\ w_an w' x = None);
+  ip_listed : forall x, In x acc' -> In x acc \/ exists t, In x (w_rev w0 t)
 }.
 
 Lemma inv_rec_spec : forall k P cu w0 w acc f,
@@ -1120,6 +1182,8 @@ Proof.
         * destruct (ip_acc'0 x H) as [H'|[H1 H2]]; [left; exact H'|right].
           split; [exact H1|apply (inv_frame_none w1 w2); auto].
         * right. rewrite (if_files _ _ ip_frame0) in H1. auto.
+      + intros x Hx. destruct (ip_listed1 x Hx) as [H|[t H]]; [apply ip_listed0; exact H|right].
+        exists t. destruct (if_pt _ _ ip_frame0 t) as [[_ [_ R]]|[_ [_ R]]]; rewrite R in H; [exact H|destruct H].
       + intros x [<-|Hx]; [apply (inv_frame_none w1 w2); auto|auto].
       + intros x H1 H2. destruct (w_an w1 x) eqn:E.
         * destruct (Rm2 x) as [H|H]; [congruence|exact H2|left; right; exact H|right; exact H].
@@ -1151,6 +1215,10 @@ Proof.
     + apply in_app_or in H. destruct H as [H|H]; [left; exact H|right].
       split; [|apply Al; exact H]. apply (proj1 (pick_in _ _)) in H. apply (gp_rev _ _ G f x H).
     + right. rewrite (cl_files _ _ _ C) in H1. auto.
+  - intros x Hx. destruct (ip_listed0 x Hx) as [H|[t H]].
+    + apply in_app_or in H. destruct H as [H|H]; [left; exact H|right]. exists f. apply (proj1 (pick_in _ _)). exact H.
+    + right. exists t. destruct (Nat.eq_dec t f) as [->|Hn]; [rewrite (cl_rev_f _ _ _ C) in H; destruct H|].
+      rewrite (cl_rev _ _ _ C) in H by exact Hn. exact H.
   - apply (inv_frame_none w2 w'); auto. apply (cl_an_f _ _ _ C).
   - split.
     + intros x H1 H2. destruct (Nat.eq_dec x f) as [->|Hn]; [left; reflexivity|right].
@@ -1337,7 +1405,9 @@ Lemma update_file_spec : forall cu w p id c,
     (forall x, In x inv -> w_files w2 x <> None) /\
     (forall x, w_an w x <> None -> w_an w2 x = None -> x = id \/ In x inv) /\
     (forall x a, w_an w2 x = Some a -> w_an w x = Some a) /\
-    w_uris w2 = w_uris w /\ w_pub w2 = w_pub w /\ w_log w2 = w_log w /\ w_failed w2 = w_failed w.
+    w_uris w2 = w_uris w /\ w_pub w2 = w_pub w /\ w_log w2 = w_log w /\ w_failed w2 = w_failed w /\
+    (forall t g, In g (w_rev w2 t) -> In g (w_rev w t)) /\
+    (forall x, In x inv -> exists t, In x (w_rev w t)).
 Proof.
   intros cu w p id c [G L R B A] Hid Hc.
   assert (Hl : live_id w p = Some id) by (unfold live_id; rewrite Hid; reflexivity).
@@ -1395,7 +1465,10 @@ Proof.
   split. { intros x a Hx. apply (Kept x a Hx). }
   assert (w_uris w1 = w_uris w /\ w_pub w1 = w_pub w /\ w_log w1 = w_log w /\ w_failed w1 = w_failed w) as [Q1 [Q2 [Q3 Q4]]]
     by (repeat split; reflexivity).
-  repeat split; congruence.
+  split; [congruence|]. split; [congruence|]. split; [congruence|]. split; [congruence|].
+  split.
+  - intros t g H. rewrite RR in H. destruct (if_pt0 t) as [[_ [_ Rt]]|[_ [_ Rt]]]; rewrite Rt in H; [exact H|destruct H].
+  - intros x Hx. destruct (ip_listed0 x Hx) as [[]|H]. exact H.
 Qed.
 
 (* replace_string in general *)
@@ -1424,20 +1497,21 @@ Lemma inv_steps_spec : forall cu l P w invl,
     GInvP P w' /\ SInvP P cu w' /\ inv_frame w w' /\ (forall x, In x l -> w_an w' x = None) /\
     (forall x, In x invl -> In x inv') /\
     (forall x, In x inv' -> In x invl \/ (w_files w x <> None /\ w_an w' x = None)) /\
-    (forall x, w_an w x <> None -> w_an w' x = None -> In x l \/ In x inv').
+    (forall x, w_an w x <> None -> w_an w' x = None -> In x l \/ In x inv') /\
+    (forall x, In x inv' -> In x invl \/ exists t, In x (w_rev w t)).
 Proof.
   intros cu. induction l as [|g l IH]; intros P w invl G S Hl.
   - exists w, invl. split; [reflexivity|]. split.
     { eapply GInvP_weaken; [|exact G]. intros x [H|[]]; exact H. }
     split. { intros x a Hx. destruct (S x a Hx) as [[H|[]]|H]; auto. }
     split; [apply inv_frame_refl|]. split; [intros x []|]. split; [auto|]. split; [auto|].
-    intros x H1 H2. congruence.
+    split; [intros x H1 H2; congruence|auto].
   - destruct (inv_rec_spec M (fun x => P x \/ In x l) cu w w [] g) as [w1 [acc1 [E1 [[] [Ag [Rm _]]]]]]; auto.
     { eapply GInvP_weaken; [|exact G]. intros x [H|[<-|H]]; auto. }
     { intros x a Hx. destruct (S x a Hx) as [[H|[<-|H]]|H]; auto. }
     { apply Hl. left. reflexivity. }
     { lia. }
-    destruct (IH P w1 (union_set invl acc1) ip_ginv0 ip_sinv0) as [w2 [inv2 [E2 [G2 [S2 [F2 [Al [Mo [In2 Rm2]]]]]]]]].
+    destruct (IH P w1 (union_set invl acc1) ip_ginv0 ip_sinv0) as [w2 [inv2 [E2 [G2 [S2 [F2 [Al [Mo [In2 [Rm2 Li2]]]]]]]]]].
     { intros x Hx. rewrite (if_files _ _ ip_frame0). apply Hl. right. exact Hx. }
     exists w2, inv2. split.
     { cbn. unfold invalidate. rewrite E1. exact E2. }
@@ -1449,9 +1523,14 @@ Proof.
       - apply In_union_set in H. destruct H as [H|H]; [left; exact H|right].
         destruct (ip_acc'0 x H) as [[]|[H1 H2]]. split; [exact H1|apply (inv_frame_none w1 w2); auto].
       - right. rewrite (if_files _ _ ip_frame0) in H1. auto. }
-    intros x H1 H2. destruct (w_an w1 x) eqn:E.
-    + destruct (Rm2 x) as [H|H]; [congruence|exact H2|left; right; exact H|right; exact H].
-    + destruct (Rm x H1 E) as [->|H]; [left; left; reflexivity|right]. apply Mo. apply In_union_set. right. exact H.
+    split.
+    { intros x H1 H2. destruct (w_an w1 x) eqn:E.
+      + destruct (Rm2 x) as [H|H]; [congruence|exact H2|left; right; exact H|right; exact H].
+      + destruct (Rm x H1 E) as [->|H]; [left; left; reflexivity|right]. apply Mo. apply In_union_set. right. exact H. }
+    intros x Hx. destruct (Li2 x Hx) as [H|[t H]].
+    + apply In_union_set in H. destruct H as [H|H]; [left; exact H|right].
+      destruct (ip_listed0 x H) as [[]|H']. exact H'.
+    + right. exists t. destruct (if_pt _ _ ip_frame0 t) as [[_ [_ R]]|[_ [_ R]]]; rewrite R in H; [exact H|destruct H].
 Qed.
 
 Lemma GInvP_set_uris : forall P w f p c, GInvP P w -> w_files w f = Some (p, c) ->
@@ -1470,7 +1549,11 @@ Lemma add_file_spec : forall cu w p c,
     (forall x, w_an w x <> None -> w_an w5 x = None -> x = id \/ In x inv) /\
     (forall x a, w_an w5 x = Some a -> w_an w x = Some a) /\
     w_uris w5 id = Some p /\ (forall x, x <> id -> w_uris w5 x = w_uris w x) /\
-    w_pub w5 = w_pub w /\ w_log w5 = w_log w.
+    w_pub w5 = w_pub w /\ w_log w5 = w_log w /\
+    (forall t g, In g (w_rev w5 t) -> In g (w_rev w t)) /\
+    (forall q g, In g (w_failed w5 q) -> In g (w_failed w q)) /\
+    (forall x, In x inv -> (exists t, In x (w_rev w t)) \/ In x (w_failed w p)) /\
+    (forall t, live_id w p = Some t -> t = id).
 Proof.
   intros cu w p c [G L R B A] Hc.
   unfold add_file.
@@ -1507,7 +1590,7 @@ Proof.
   { congruence. }
   { lia. }
   unfold invalidate at 1. rewrite E1.
-  destruct (inv_steps_spec cu (pick ftl) (fun _ => False) w2 (union_set ftl l1)) as [w3 [inv [E3 [G3 [S3 [F3 [Al3 [Mo3 [In3 Rm3]]]]]]]]].
+  destruct (inv_steps_spec cu (pick ftl) (fun _ => False) w2 (union_set ftl l1)) as [w3 [inv [E3 [G3 [S3 [F3 [Al3 [Mo3 [In3 [Rm3 Li3]]]]]]]]]].
   { eapply GInvP_weaken; [|exact ip_ginv0]. intros x H. right. apply pick_in. exact H. }
   { intros x a Hx. destruct (ip_sinv0 x a Hx) as [H|H]; [left; right; apply pick_in; exact H|right; exact H]. }
   { intros x Hx. apply (proj1 (pick_in _ _)) in Hx. rewrite (if_files _ _ ip_frame0).
@@ -1582,7 +1665,20 @@ Proof.
   split. { intros x a Hx. apply (Kept x a Hx). }
   split. { unfold w5. cbn. apply upd_eq. }
   split. { intros x Hx. unfold w5. cbn. rewrite upd_neq by exact Hx. rewrite RU, if_uris0, SU. reflexivity. }
-  split; unfold w5; cbn; [rewrite RP, if_pub0, SP|rewrite RG, if_log0, SL]; reflexivity.
+  split; [unfold w5; cbn; rewrite RP, if_pub0, SP; reflexivity|].
+  split; [unfold w5; cbn; rewrite RG, if_log0, SL; reflexivity|].
+  split.
+  { intros t g H. unfold w5 in H. cbn in H. rewrite RR in H.
+    destruct (if_pt0 t) as [[_ [_ Rt]]|[_ [_ Rt]]]; rewrite Rt in H; [rewrite SR in H; exact H|destruct H]. }
+  split.
+  { intros q g H. unfold w5 in H. cbn in H. rewrite RL, if_failed0, SF in H. cbn in H. unfold upd in H.
+    destruct (Nat.eqb q p); [destruct H|exact H]. }
+  split.
+  { intros x Hx. apply (proj1 (pick_in _ _)) in Hx. destruct (Li3 x Hx) as [H|[t H]].
+    - apply In_union_set in H. destruct H as [H|H]; [right; exact H|left].
+      destruct (ip_listed0 x H) as [[]|[t Ht]]. exists t. rewrite SR in Ht. exact Ht.
+    - left. exists t. destruct (if_pt _ _ ip_frame0 t) as [[_ [_ Rt]]|[_ [_ Rt]]]; rewrite Rt in H; [rewrite SR in H; exact H|destruct H]. }
+  intros t Ht. destruct Hlive as [H|[H _]]; change (live_id w0 p) with (live_id w p) in H; congruence.
 Qed.
 
 Lemma close_file_spec : forall cu w p closed,
@@ -1598,7 +1694,12 @@ Lemma close_file_spec : forall cu w p closed,
     (forall x a, w_an wf x = Some a -> w_an w x = Some a) /\
     (forall x q, w_uris wf x = Some q -> w_uris w x = Some q \/ Some x = repl) /\
     w_pub wf = w_pub w /\ w_log wf = w_log w /\
-    (purge_closed cf = true -> ~ In closed inv /\ (forall t, ~ In closed (w_rev wf t)) /\ (forall q, ~ In closed (w_failed wf q))).
+    (purge_closed cf = true -> ~ In closed inv /\ (forall t, ~ In closed (w_rev wf t)) /\ (forall q, ~ In closed (w_failed wf q))) /\
+    (forall t g, In g (w_rev wf t) -> In g (w_rev w t)) /\
+    (forall q g, In g (w_failed wf q) -> In g (w_failed w q)) /\
+    (forall x, In x inv -> exists t, In x (w_rev w t)) /\
+    w_an wf closed = None /\ (repl = None -> disk p = None) /\
+    (forall x q, w_uris w x = Some q -> w_uris wf x = Some q).
 Proof.
   intros cu w p closed [G L R B A] Hid.
   assert (Hl : live_id w p = Some closed) by (unfold live_id; rewrite Hid; reflexivity).
@@ -1775,9 +1876,31 @@ Proof.
       rewrite RU, if_uris0, SU in Hx. exact Hx.
     - left. rewrite RU, if_uris0, SU in Hx. exact Hx. }
   split; [congruence|]. split; [congruence|].
-  intros Hp. unfold invf, wf. rewrite Hp. split.
-  { intros H. apply In_remove_nat in H. destruct H as [_ H]. contradiction. }
-  split; intros t H; cbn in H; apply In_remove_nat in H; destruct H as [_ H]; contradiction.
+  split.
+  { intros Hp. unfold invf, wf. rewrite Hp. split.
+    { intros H. apply In_remove_nat in H. destruct H as [_ H]. contradiction. }
+    split; intros t H; cbn in H; apply In_remove_nat in H; destruct H as [_ H]; contradiction. }
+  assert (Rv5w : forall t g, In g (w_rev w5 t) -> In g (w_rev w t)).
+  { intros t g H. rewrite Rv5 in H. destruct (if_pt0 t) as [[_ [_ Rt]]|[_ [_ Rt]]]; rewrite Rt in H; [rewrite SR in H; exact H|destruct H]. }
+  assert (Fl5w : forall q g, In g (w_failed w5 q) -> In g (w_failed w q)).
+  { intros q g H. rewrite Fl5, SF in H. exact H. }
+  split.
+  { intros t g H. unfold wf in H. destruct (purge_closed cf); [|apply Rv5w; exact H].
+    cbn in H. apply In_remove_nat in H. apply Rv5w. tauto. }
+  split.
+  { intros q g H. unfold wf in H. destruct (purge_closed cf); [|apply Fl5w; exact H].
+    cbn in H. apply In_remove_nat in H. apply Fl5w. tauto. }
+  split.
+  { intros x Hx. assert (In x inv) by (unfold invf in Hx; destruct (purge_closed cf); [apply In_remove_nat in Hx; tauto|exact Hx]).
+    destruct (ip_listed0 x H) as [[]|[t Ht]]. exists t. rewrite SR in Ht. exact Ht. }
+  split; [rewrite Anf; exact AnClosed|].
+  split.
+  { intros ->. destruct Hr as [Hc _]. unfold cu' in Hc. rewrite upd_eq in Hc. exact Hc. }
+  intros x q Hx. rewrite Urf. unfold w5. destruct repl as [id'|] eqn:Er.
+  - cbn. destruct (Nat.eq_dec x id') as [->|Hn].
+    + exfalso. destruct (Fnew id' eq_refl) as [H _]. destruct (gp_uris _ _ G id' q Hx) as [c1 Hc1]. congruence.
+    + rewrite upd_neq by exact Hn. rewrite RU, if_uris0, SU. exact Hx.
+  - rewrite RU, if_uris0, SU. exact Hx.
 Qed.
 
 (* ------------------------------------------------------------------ parse_and_typecheck, the handlers *)
@@ -1816,7 +1939,10 @@ Record pt_post (cu : docs) (w : world) (x : fid) (w' : world) (ds : list diag) :
   pp_failed : forall q g, In g (w_failed w q) -> In g (w_failed w' q);
   pp_uris : forall y p, w_uris w y = Some p -> w_uris w' y = Some p;
   pp_pub : w_pub w' = w_pub w;
-  pp_log : w_log w' = w_log w
+  pp_log : w_log w' = w_log w;
+  pp_rev_new : forall t g, In g (w_rev w' t) -> In g (w_rev w t) \/ g = x \/ (lvi w' g /\ w_uris w' g <> None);
+  pp_failed_new : forall q g, In g (w_failed w' q) -> In g (w_failed w q) \/ g = x \/ (lvi w' g /\ w_uris w' g <> None);
+  pp_an_new : forall g, w_an w' g <> None -> w_an w g <> None \/ g = x \/ (lvi w' g /\ w_uris w' g <> None)
 }.
 
 Lemma pt_spec : forall cu w x,
@@ -1867,6 +1993,10 @@ Proof.
   - intros y p H. apply tp_uris0. exact H.
   - exact tp_pub0.
   - exact tp_log0.
+  - intros t g H. apply tp_rev_new0. exact H.
+  - intros q g H. apply tp_failed_new0. exact H.
+  - intros g H. destruct (tp_an_new0 g H) as [H'|H']; [|right; right; exact H'].
+    unfold w1 in H'. cbn in H'. unfold upd in H'. destruct (Nat.eqb_spec g x) as [->|]; [right; left; reflexivity|left; exact H'].
 Qed.
 
 Lemma CInv_pub : forall cu w v v', CInv cu w -> CInv cu (set_log (set_pub w v) v').
@@ -1894,7 +2024,8 @@ Lemma cap_spec : forall cu l w,
     CInv cu w' /\ fext w w' /\
     (forall x, In x l -> tc_at w' x) /\
     (forall y ay, ~ In y l -> w_an w y = Some ay -> w_an w' y = Some ay) /\
-    (forall y, tc_at w y -> tc_at w' y).
+    (forall y, tc_at w y -> tc_at w' y) /\
+    (forall y p, w_uris w y = Some p -> w_uris w' y = Some p).
 Proof.
   intros cu. induction l as [|x l IH]; intros w C Hl.
   - exists w. split; [reflexivity|]. split; [exact C|]. split; [apply fext_refl|]. split; [intros x []|]. auto.
@@ -1902,7 +2033,7 @@ Proof.
     destruct (pt_spec cu w x C (Hl x (or_introl eq_refl))) as [w1 [ds [E1 P1]]]. rewrite E1. destruct P1.
     destruct (publish_spec cu w1 x ds pp_c0) as [C2 [X2 [A2 [F2 [I2 [U2 [R2 Fl2]]]]]]].
     set (w2 := publish w1 x ds) in *.
-    destruct (IH w2 C2) as [w3 [E3 [C3 [X3 [T3 [O3 M3]]]]]].
+    destruct (IH w2 C2) as [w3 [E3 [C3 [X3 [T3 [O3 [M3 U3]]]]]]].
     { intros y Hy. rewrite F2. apply (fx_files_ne w w1); auto. apply Hl. right. exact Hy. }
     exists w3. split; [exact E3|]. split; [exact C3|].
     split; [eapply fext_trans; [exact pp_fext0|eapply fext_trans; eauto]|].
@@ -1913,8 +2044,104 @@ Proof.
     split.
     { intros y ay Hn Hy. apply O3; [intros H; apply Hn; right; exact H|]. rewrite A2. apply pp_other0; [|exact Hy].
       intros ->. apply Hn. left. reflexivity. }
-    intros y [ay [H1 H2]]. apply M3. destruct (Nat.eq_dec y x) as [->|Hn]; [exact Tx|].
-    exists ay. rewrite A2. split; [apply pp_other0; assumption|exact H2].
+    split.
+    { intros y [ay [H1 H2]]. apply M3. destruct (Nat.eq_dec y x) as [->|Hn]; [exact Tx|].
+      exists ay. rewrite A2. split; [apply pp_other0; assumption|exact H2]. }
+    intros y p Hy. apply U3. rewrite U2. apply pp_uris0. exact Hy.
+Qed.
+
+(* ------------------------------------------------------------------ published diagnostics *)
+
+Definition listed (w : world) (g : fid) : Prop :=
+  (exists t, In g (w_rev w t)) \/ (exists q, In g (w_failed w q)) \/ w_an w g <> None.
+
+(* every file id the bookkeeping still mentions is the current id of its path *)
+Definition AL (w : world) : Prop := forall g, listed w g -> lvi w g /\ w_uris w g <> None.
+
+Definition pdiags (a : analysis) : list diag := (if is_perr (a_src a) then [DParse] else []) ++ a_tdiags a.
+
+(* the last diagnostics published for a path are those of its current analysis ([L]: still to be re-published) *)
+Definition P1X (L : fid -> Prop) (w : world) : Prop :=
+  forall p ds f, w_pub w p = Some ds -> live_id w p = Some f ->
+    L f \/ exists a, w_an w f = Some a /\ a_state a = Typechecked /\ ds = pdiags a.
+
+Definition P67 (w : world) : Prop := forall q, w_pub w q <> None -> live_id w q <> None \/ disk q = None.
+
+Lemma uris_mono_ne : forall (w w' : world) g, (forall y p, w_uris w y = Some p -> w_uris w' y = Some p) ->
+  w_uris w g <> None -> w_uris w' g <> None.
+Proof. intros w w' g H Hu. destruct (w_uris w g) as [p|] eqn:E; [|congruence]. rewrite (H g p E). discriminate. Qed.
+
+Lemma pt_AL : forall cu w x w' ds, AL w -> lvi w x -> w_uris w x <> None -> pt_post cu w x w' ds -> AL w'.
+Proof.
+  intros cu w x w' ds A Lx Ux [].
+  assert (Old : forall g, listed w g -> lvi w' g /\ w_uris w' g <> None).
+  { intros g Hg. destruct (A g Hg) as [H1 H2]. split; [eapply lvi_fext; eauto|eapply uris_mono_ne; eauto]. }
+  assert (X : lvi w' x /\ w_uris w' x <> None) by (split; [eapply lvi_fext; eauto|eapply uris_mono_ne; eauto]).
+  intros g [[t H]|[[q H]|H]].
+  - destruct (pp_rev_new0 t g H) as [H'|[->|H']]; [apply Old; left; eauto|exact X|exact H'].
+  - destruct (pp_failed_new0 q g H) as [H'|[->|H']]; [apply Old; right; left; eauto|exact X|exact H'].
+  - destruct (pp_an_new0 g H) as [H'|[->|H']]; [apply Old; right; right; exact H'|exact X|exact H'].
+Qed.
+
+Lemma cap_pub_spec : forall cu l w w',
+  CInv cu w -> AL w -> P67 w -> P1X (fun f => In f l) w ->
+  (forall x, In x l -> w_files w x <> None /\ lvi w x /\ w_uris w x <> None) ->
+  fold_left (check_and_publish cf pick disk M) l (Ok w) = Ok w' ->
+  AL w' /\ P67 w' /\ P1X (fun _ => False) w'.
+Proof.
+  intros cu. induction l as [|x l IH]; intros w w' C A P6 P1 Hl E.
+  - cbn in E. inv E. split; [exact A|]. split; [exact P6|]. intros p ds f H1 H2. destruct (P1 p ds f H1 H2) as [[]|H]. right. exact H.
+  - cbn [fold_left check_and_publish] in E.
+    destruct (Hl x (or_introl eq_refl)) as [Fx [Lx Ux]].
+    destruct (pt_spec cu w x C Fx) as [w1 [ds [E1 P1']]]. rewrite E1 in E.
+    pose proof (pt_AL cu w x w1 ds A Lx Ux P1') as A1. destruct P1'.
+    destruct (publish_spec cu w1 x ds pp_c0) as [C2 [X2 [A2 [F2 [I2 [U2 [R2 Fl2]]]]]]].
+    set (w2 := publish w1 x ds) in *.
+    assert (LV2 : forall q, live_id w2 q = live_id w1 q) by (intros; apply live_ids_eq; exact I2).
+    destruct (w_uris w x) as [px|] eqn:Eux; [|congruence].
+    pose proof (pp_uris0 x px Eux) as Eux1.
+    assert (Pub2 : w_pub w2 = upd (w_pub w1) px (Some ds)).
+    { unfold w2, publish. rewrite Eux1. reflexivity. }
+    (* x is the current id of px *)
+    assert (Lpx : live_id w1 px = Some x).
+    { destruct Lx as [q Hq]. apply (fx_live _ _ pp_fext0) in Hq.
+      destruct (live_id_file w1 q x (c_ginv _ _ pp_c0) Hq) as [c1 H1].
+      destruct (gp_uris _ _ (c_ginv _ _ pp_c0) x px Eux1) as [c2 H2]. rewrite H1 in H2. inv H2. exact Hq. }
+    apply (IH w2 w' C2).
+    + intros g [[t H]|[[q H]|H]].
+      * rewrite R2 in H. destruct (A1 g (or_introl (ex_intro _ t H))) as [[q0 H1] H2]. split; [exists q0; rewrite LV2; exact H1|rewrite U2; exact H2].
+      * rewrite Fl2 in H. destruct (A1 g (or_intror (or_introl (ex_intro _ q H)))) as [[q0 H1] H2]. split; [exists q0; rewrite LV2; exact H1|rewrite U2; exact H2].
+      * rewrite A2 in H. destruct (A1 g (or_intror (or_intror H))) as [[q0 H1] H2]. split; [exists q0; rewrite LV2; exact H1|rewrite U2; exact H2].
+    + intros q Hq. rewrite LV2. rewrite Pub2 in Hq. destruct (Nat.eq_dec q px) as [Eq|Hn].
+      * subst q. left. congruence.
+      * rewrite upd_neq in Hq by exact Hn. rewrite pp_pub0 in Hq. destruct (P6 q Hq) as [H|H]; [left|right; exact H].
+        destruct (live_id w q) as [f|] eqn:Ef; [|congruence]. rewrite (fx_live _ _ pp_fext0 q f Ef). discriminate.
+    + intros p ds0 f Hp Hf. rewrite LV2 in Hf. rewrite Pub2 in Hp. destruct (Nat.eq_dec p px) as [Eq|Hn].
+      * subst p. rewrite upd_eq in Hp. inv Hp. rewrite Lpx in Hf. inv Hf. right. destruct pp_res0 as [ax [H1 [H2 H3]]]. exists ax. rewrite A2. auto.
+      * rewrite upd_neq in Hp by exact Hn. rewrite pp_pub0 in Hp.
+        assert (Hfw : live_id w p = Some f).
+        { destruct (live_id w p) as [f'|] eqn:Ef.
+          - rewrite (fx_live _ _ pp_fext0 p f' Ef) in Hf. exact Hf.
+          - exfalso. destruct (P6 p) as [H|H]; [congruence|congruence|].
+            destruct (live_id_ids w1 p f Hf) as [k [Hk _]].
+            destruct (fx_kind _ _ pp_fext0 p f k Hk) as [H'|[-> _]].
+            + unfold live_id in Ef. rewrite H' in Ef. destruct k; try discriminate. destruct (live_id_ids w1 p f Hf) as [k' [Hk' Hne]]. congruence.
+            + destruct (gp_ids _ _ (c_ginv _ _ pp_c0) p f KFs Hk) as [c1 [_ Hd]]. rewrite (Hd eq_refl) in H. discriminate. }
+        destruct (P1 p ds0 f Hp Hfw) as [[<-|Hin]|[a [H1 [H2 H3]]]].
+        -- exfalso. apply Hn.
+           destruct (live_id_file w1 p x (c_ginv _ _ pp_c0) Hf) as [c1 Hc1].
+           destruct (live_id_file w1 px x (c_ginv _ _ pp_c0) Lpx) as [c2 Hc2]. congruence.
+        -- left. exact Hin.
+        -- destruct (Nat.eq_dec f x) as [->|Hfx].
+           ++ exfalso. apply Hn. 
+              destruct (live_id_file w1 p x (c_ginv _ _ pp_c0) Hf) as [c1 Hc1].
+              destruct (live_id_file w1 px x (c_ginv _ _ pp_c0) Lpx) as [c2 Hc2]. congruence.
+           ++ right. exists a. rewrite A2. split; [apply pp_other0; assumption|auto].
+    + intros y Hy. destruct (Hl y (or_intror Hy)) as [H1 [H2 H3]].
+      split; [rewrite F2; apply (fx_files_ne w w1); auto|].
+      split; [destruct H2 as [q Hq]; exists q; rewrite LV2; apply (fx_live _ _ pp_fext0); exact Hq|].
+      rewrite U2. eapply uris_mono_ne; eauto.
+    + exact E.
 Qed.
 
 (* ------------------------------------------------------------------ histories *)
@@ -1978,7 +2205,7 @@ Proof.
   - (* didOpen *)
     destruct (add_file_spec cu w p c Cw Ho) as [w5 [id [inv [E [C5 [Ip [Io [An [Fi [Fin [Rm [Kp _]]]]]]]]]]]].
     rewrite E.
-    destruct (cap_spec (upd cu p (Some c)) (id :: inv) w5 C5) as [w' [E' [C' [X' [T' [O' M']]]]]].
+    destruct (cap_spec (upd cu p (Some c)) (id :: inv) w5 C5) as [w' [E' [C' [X' [T' [O' [M' _]]]]]]].
     { intros x [<-|Hx]; [congruence|apply Fin; exact Hx]. }
     exists w'. split; [exact E'|]. constructor.
     + eapply CInv_cu_ext; [|exact C']. intros q. unfold cur, upd. destruct (Nat.eqb_spec q p) as [->|]; [reflexivity|].
@@ -2002,7 +2229,7 @@ Proof.
     assert (Fid : w_files w2 id <> None).
     { assert (L : live_id w2 p = Some id) by (unfold live_id; rewrite Iq; cbn; rewrite Hid; reflexivity).
       destruct (live_id_file w2 p id (c_ginv _ _ C2) L) as [c1 H]. congruence. }
-    destruct (cap_spec (upd cu p (Some c)) (id :: inv) w2 C2) as [w' [E' [C' [X' [T' [O' M']]]]]].
+    destruct (cap_spec (upd cu p (Some c)) (id :: inv) w2 C2) as [w' [E' [C' [X' [T' [O' [M' _]]]]]]].
     { intros x [<-|Hx]; [exact Fid|apply Fin; exact Hx]. }
     exists w'. split; [exact E'|]. constructor.
     + eapply CInv_cu_ext; [|exact C']. intros q. unfold cur, upd. destruct (Nat.eqb_spec q p) as [->|]; [reflexivity|].
@@ -2042,7 +2269,7 @@ Proof.
     destruct (close_file_spec cu w p closed Cw Eid) as [wf [repl [inv [E [Cf [Io [Lp [Nm [Rp [Fin [Rm [Kp _]]]]]]]]]]]].
     rewrite E.
     set (l := match repl with Some id => id :: inv | None => inv end).
-    destruct (cap_spec (upd cu p (disk p)) l wf Cf) as [w' [E' [C' [X' [T' [O' M']]]]]].
+    destruct (cap_spec (upd cu p (disk p)) l wf Cf) as [w' [E' [C' [X' [T' [O' [M' _]]]]]]].
     { intros x Hx. unfold l in Hx. destruct repl as [id'|]; [|apply Fin; exact Hx].
       destruct Hx as [<-|Hx]; [|apply Fin; exact Hx].
       destruct (live_id_file wf p id' (c_ginv _ _ Cf) Lp) as [c1 H]. congruence. }
@@ -2081,6 +2308,220 @@ Proof.
     { destruct o; auto. destruct (bufs p); [discriminate|discriminate]. }
     destruct (IH _ _ w1 W1 H2 Hc2) as [w' [E' W']].
     exists w'. split; [|exact W']. unfold run_from in *. cbn. rewrite E1. exact E'.
+Qed.
+
+(* every open document has published diagnostics *)
+Lemma cap_published : forall cu l w w',
+  CInv cu w -> (forall x, In x l -> w_files w x <> None) ->
+  fold_left (check_and_publish cf pick disk M) l (Ok w) = Ok w' ->
+  (forall p, w_pub w p <> None -> w_pub w' p <> None) /\
+  (forall x px, In x l -> w_uris w x = Some px -> w_pub w' px <> None).
+Proof.
+  intros cu. induction l as [|x l IH]; intros w w' C Hl E.
+  - cbn in E. inv E. split; [auto|intros x px []].
+  - cbn [fold_left check_and_publish] in E.
+    destruct (pt_spec cu w x C (Hl x (or_introl eq_refl))) as [w1 [ds [E1 P1']]]. rewrite E1 in E. destruct P1'.
+    destruct (publish_spec cu w1 x ds pp_c0) as [C2 [X2 [A2 [F2 [I2 [U2 [R2 Fl2]]]]]]].
+    set (w2 := publish w1 x ds) in *.
+    destruct (IH w2 w' C2) as [M2 P2]; [|exact E|].
+    { intros y Hy. rewrite F2. apply (fx_files_ne w w1); auto. apply Hl. right. exact Hy. }
+    assert (Mono : forall p, w_pub w p <> None -> w_pub w2 p <> None).
+    { intros p Hp. unfold w2, publish. destruct (w_uris w1 x) as [px|]; [|rewrite pp_pub0; exact Hp].
+      cbn. unfold upd. destruct (Nat.eqb p px); [discriminate|rewrite pp_pub0; exact Hp]. }
+    split; [intros p Hp; apply M2; apply Mono; exact Hp|].
+    intros y py [<-|Hy] Hu.
+    + apply M2. unfold w2, publish. rewrite (pp_uris0 x py Hu). cbn. rewrite upd_eq. discriminate.
+    + apply (P2 y py Hy). rewrite U2. apply pp_uris0. exact Hu.
+Qed.
+
+(* ------------------------------------------------------------------ published diagnostics over histories *)
+
+Record PInv (w : world) : Prop := {
+  pi_al : AL w;
+  pi_p1 : P1X (fun _ => False) w;
+  pi_p67 : P67 w;
+  pi_open : forall p id, w_ids w p = Some (id, KMem) -> w_uris w id = Some p /\ w_pub w p <> None
+}.
+
+Lemma PInv_empty : PInv empty_world.
+Proof.
+  constructor.
+  - intros g [[t H]|[[q H]|H]]; cbn in H; try contradiction; try (exfalso; apply H; reflexivity).
+  - intros p ds f H. discriminate.
+  - intros q H. exfalso. apply H. reflexivity.
+  - intros p id H. discriminate.
+Qed.
+
+Lemma live_of_ids : forall w w' q, w_ids w' q = w_ids w q -> live_id w' q = live_id w q.
+Proof. intros. unfold live_id. rewrite H. reflexivity. Qed.
+
+Lemma step_pub : forall cu bufs w0 o w',
+  WInv cu bufs w0 -> PInv w0 -> op_respects rank o ->
+  match o with Change p _ => bufs p <> None | _ => True end ->
+  (purge_closed cf = true \/ match o with Close _ => False | _ => True end) ->
+  step cf pick disk M w0 o = Ok w' -> PInv w'.
+Proof.
+  intros cu bufs w0 o w' [C Ecu Hop Htc] [A0 P10 P670 PO0] Ho Hcl Hpu Hstep.
+  unfold step in Hstep. set (w := set_log w0 []) in *.
+  assert (Cw : CInv cu w) by (apply CInv_log; exact C).
+  assert (A : AL w) by exact A0. assert (P1 : P1X (fun _ => False) w) by exact P10. assert (P6 : P67 w) by exact P670.
+  assert (PO : forall p id, w_ids w p = Some (id, KMem) -> w_uris w id = Some p /\ w_pub w p <> None) by exact PO0.
+  assert (SameId : forall (wx : world) q1 q2 x k1 k2, GInv wx -> w_ids wx q1 = Some (x, k1) -> w_ids wx q2 = Some (x, k2) -> q1 = q2).
+  { intros wx q1 q2 x k1 k2 Gx H1 H2. destruct (gp_ids _ _ Gx q1 x k1 H1) as [c1 [F1 _]].
+    destruct (gp_ids _ _ Gx q2 x k2 H2) as [c2 [F2 _]]. congruence. }
+  destruct o as [p c|p c|p].
+  - (* didOpen *)
+    destruct (add_file_spec cu w p c Cw Ho)
+      as [w5 [id [inv [E [C5 [Ip [Io [An [Fi [Fin [Rm [Kp [Ui [Uo [Pb [Lg [Rvs [Fls [Lis Lid]]]]]]]]]]]]]]]]]]].
+    rewrite E in Hstep.
+    assert (LVp : live_id w5 p = Some id) by (unfold live_id; rewrite Ip; reflexivity).
+    assert (LVr : forall q t, live_id w q = Some t -> live_id w5 q = Some t).
+    { intros q t H. destruct (Nat.eq_dec q p) as [->|Hq]; [rewrite (Lid t H); exact LVp|].
+      rewrite (live_of_ids w w5 q (Io q Hq)). exact H. }
+    assert (Old : forall g, listed w g -> lvi w5 g /\ w_uris w5 g <> None).
+    { intros g Hg. destruct (A g Hg) as [[q Hq] Hu]. split; [exists q; apply LVr; exact Hq|].
+      destruct (Nat.eq_dec g id) as [->|Hn]; [congruence|rewrite Uo by exact Hn; exact Hu]. }
+    assert (A5 : AL w5).
+    { intros g [[t H]|[[q H]|H]]; apply Old.
+      - left. exists t. apply Rvs. exact H.
+      - right. left. exists q. apply Fls. exact H.
+      - right. right. destruct (w_an w5 g) as [a|] eqn:Ea; [|congruence]. rewrite (Kp g a Ea). discriminate. }
+    destruct (cap_pub_spec (upd cu p (Some c)) (id :: inv) w5 w' C5 A5) as [A' [P6' P1']]; auto.
+    + intros q Hq. rewrite Pb in Hq. destruct (P6 q Hq) as [H|H]; [left|right; exact H].
+      destruct (live_id w q) as [f|] eqn:Ef; [|congruence]. rewrite (LVr q f Ef). discriminate.
+    + intros p0 ds f Hp Hf. rewrite Pb in Hp. destruct (Nat.eq_dec p0 p) as [->|Hq].
+      * left. left. congruence.
+      * rewrite (live_of_ids w w5 p0 (Io p0 Hq)) in Hf. destruct (P1 p0 ds f Hp Hf) as [[]|[a [H1 [H2 H3]]]].
+        destruct (w_an w5 f) as [a5|] eqn:E5.
+        -- right. exists a5. rewrite (Kp f a5 E5) in H1. inv H1. auto.
+        -- left. destruct (Rm f) as [->|Hin]; [congruence|exact E5|left; reflexivity|right; exact Hin].
+    + intros x [<-|Hx].
+      * split; [congruence|]. split; [exists p; exact LVp|congruence].
+      * split; [apply Fin; exact Hx|]. apply Old. destruct (Lis x Hx) as [[t H]|H]; [left; eauto|right; left; eauto].
+    + assert (Hfl : forall x, In x (id :: inv) -> w_files w5 x <> None).
+      { intros x [<-|Hx]; [congruence|apply Fin; exact Hx]. }
+      destruct (cap_spec (upd cu p (Some c)) (id :: inv) w5 C5 Hfl) as [w'' [E'' [_ [X'' [_ [_ [_ U'']]]]]]].
+      rewrite Hstep in E''. inv E''.
+      destruct (cap_published (upd cu p (Some c)) (id :: inv) w5 w'' C5 Hfl Hstep) as [Mo Pu].
+      constructor; try assumption.
+      intros q x Hq. apply (mem_entries_fext w5 w'' q x X'') in Hq. destruct (Nat.eq_dec q p) as [->|Hn].
+      * rewrite Ip in Hq. inv Hq. split; [apply U''; exact Ui|apply (Pu x p); [left; reflexivity|exact Ui]].
+      * assert (Hx : x <> id) by (intros ->; apply Hn; apply (SameId w5 q p id KMem KMem (c_ginv _ _ C5) Hq Ip)).
+        rewrite (Io q Hn) in Hq. destruct (PO q x Hq) as [H1 H2].
+        split; [apply U''; rewrite Uo by exact Hx; exact H1|apply Mo; rewrite Pb; exact H2].
+  - (* didChange *)
+    apply Hop in Hcl. destruct Hcl as [id Hid].
+    destruct (update_file_spec cu w p id c Cw Hid Ho)
+      as [w2 [inv [E [C2 [Iq [An [Fin [Rm [Kp [Us [Pb [Lg [Fl [Rvs Lis]]]]]]]]]]]]]].
+    rewrite E in Hstep.
+    assert (LV : forall q, live_id w2 q = live_id w q) by (intros; apply live_of_ids; apply Iq).
+    assert (Old : forall g, listed w g -> lvi w2 g /\ w_uris w2 g <> None).
+    { intros g Hg. destruct (A g Hg) as [[q Hq] Hu]. split; [exists q; rewrite LV; exact Hq|rewrite Us; exact Hu]. }
+    assert (A2 : AL w2).
+    { intros g [[t H]|[[q H]|H]]; apply Old.
+      - left. exists t. apply Rvs. exact H.
+      - right. left. exists q. rewrite Fl in H. exact H.
+      - right. right. destruct (w_an w2 g) as [a|] eqn:Ea; [|congruence]. rewrite (Kp g a Ea). discriminate. }
+    assert (Lid : live_id w p = Some id) by (unfold live_id; change (w_ids w p) with (w_ids w0 p); rewrite Hid; reflexivity).
+    destruct (Htc p id Hid) as [aid [Aid _]].
+    destruct (cap_pub_spec (upd cu p (Some c)) (id :: inv) w2 w' C2 A2) as [A' [P6' P1']]; auto.
+    + intros q Hq. rewrite Pb in Hq. rewrite LV. apply P6. exact Hq.
+    + intros p0 ds f Hp Hf. rewrite Pb in Hp. rewrite LV in Hf. destruct (P1 p0 ds f Hp Hf) as [[]|[a [H1 [H2 H3]]]].
+      destruct (w_an w2 f) as [a5|] eqn:E5.
+      * right. exists a5. rewrite (Kp f a5 E5) in H1. inv H1. auto.
+      * left. destruct (Rm f) as [->|Hin]; [congruence|exact E5|left; reflexivity|right; exact Hin].
+    + intros x [<-|Hx].
+      * assert (Li : listed w id) by (right; right; change (w_an w id) with (w_an w0 id); congruence).
+        destruct (Old id Li) as [H1 H2]. split; [|auto].
+        rewrite <- LV in Lid. destruct (live_id_file w2 p id (c_ginv _ _ C2) Lid) as [c1 Hc1]. congruence.
+      * split; [apply Fin; exact Hx|]. apply Old. destruct (Lis x Hx) as [t H]. left. eauto.
+    + assert (Hfl : forall x, In x (id :: inv) -> w_files w2 x <> None).
+      { intros x [<-|Hx]; [|apply Fin; exact Hx].
+        rewrite <- LV in Lid. destruct (live_id_file w2 p id (c_ginv _ _ C2) Lid) as [c1 Hc1]. congruence. }
+      destruct (cap_spec (upd cu p (Some c)) (id :: inv) w2 C2 Hfl) as [w'' [E'' [_ [X'' [_ [_ [_ U'']]]]]]].
+      rewrite Hstep in E''. inv E''.
+      destruct (cap_published (upd cu p (Some c)) (id :: inv) w2 w'' C2 Hfl Hstep) as [Mo Pu].
+      constructor; try assumption.
+      intros q x Hq. apply (mem_entries_fext w2 w'' q x X'') in Hq. rewrite Iq in Hq.
+      destruct (PO q x Hq) as [H1 H2].
+      split; [apply U''; rewrite Us; exact H1|apply Mo; rewrite Pb; exact H2].
+  - (* didClose *)
+    destruct Hpu as [Hpu|[]].
+    destruct (w_ids w p) as [[closed k]|] eqn:Eid.
+    2:{ unfold close_file, close_in_memory_file in Hstep. rewrite Eid in Hstep. inv Hstep. constructor; assumption. }
+    destruct k.
+    2,3: (unfold close_file, close_in_memory_file in Hstep; rewrite Eid in Hstep; inv Hstep; constructor; assumption).
+    destruct (close_file_spec cu w p closed Cw Eid)
+      as [wf [repl [inv [E [Cf [Io [Lp [Nm [Rp [Fin [Rm [Kp [Ur [Pb [Lg [Pu [Rvs [Fls [Lis [Ac [Dn Uf]]]]]]]]]]]]]]]]]]]]].
+    rewrite E in Hstep. destruct (Pu Hpu) as [Pu1 [Pu2 Pu3]].
+    assert (Lcl : live_id w p = Some closed) by (unfold live_id; rewrite Eid; reflexivity).
+    assert (LVq : forall q, q <> p -> live_id wf q = live_id w q) by (intros; apply live_of_ids; apply Io; assumption).
+    assert (Old : forall g, listed w g -> g <> closed -> lvi wf g /\ w_uris wf g <> None).
+    { intros g Hg Hn. destruct (A g Hg) as [[q Hq] Hu]. split.
+      - exists q. rewrite LVq; [exact Hq|]. intros ->. congruence.
+      - destruct (w_uris w g) as [pg|] eqn:Eu; [|congruence]. rewrite (Uf g pg Eu). discriminate. }
+    assert (Af : AL wf).
+    { intros g [[t H]|[[q H]|H]]; apply Old.
+      - left. exists t. apply Rvs. exact H.
+      - intros ->. exact (Pu2 t H).
+      - right. left. exists q. apply Fls. exact H.
+      - intros ->. exact (Pu3 q H).
+      - right. right. destruct (w_an wf g) as [a|] eqn:Ea; [|congruence]. rewrite (Kp g a Ea). discriminate.
+      - intros ->. congruence. }
+    set (l := match repl with Some id => id :: inv | None => inv end) in *.
+    destruct (cap_pub_spec (upd cu p (disk p)) l wf w' Cf Af) as [A' [P6' P1']]; auto.
+    + intros q Hq. rewrite Pb in Hq. destruct (Nat.eq_dec q p) as [->|Hn].
+      * rewrite Lp. destruct repl; [left; discriminate|right; apply Dn; reflexivity].
+      * rewrite LVq by exact Hn. apply P6. exact Hq.
+    + intros p0 ds f Hp Hf. rewrite Pb in Hp. destruct (Nat.eq_dec p0 p) as [->|Hn].
+      * left. rewrite Lp in Hf. unfold l. rewrite Hf. left. reflexivity.
+      * rewrite LVq in Hf by exact Hn. destruct (P1 p0 ds f Hp Hf) as [[]|[a [H1 [H2 H3]]]].
+        destruct (w_an wf f) as [a5|] eqn:E5.
+        -- right. exists a5. rewrite (Kp f a5 E5) in H1. inv H1. auto.
+        -- left. destruct (Rm f) as [->|Hin]; [congruence|exact E5| |unfold l; destruct repl; [right|]; exact Hin].
+           exfalso. apply Hn.
+           destruct (live_id_file w p0 closed (c_ginv _ _ Cw) Hf) as [c1 Hc1].
+           destruct (live_id_file w p closed (c_ginv _ _ Cw) Lcl) as [c2 Hc2]. congruence.
+    + intros x Hx. unfold l in Hx.
+      assert (Hinv : In x inv -> w_files wf x <> None /\ lvi wf x /\ w_uris wf x <> None).
+      { intros Hi. split; [apply Fin; exact Hi|]. apply Old.
+        - destruct (Lis x Hi) as [t H]. left. eauto.
+        - intros ->. exact (Pu1 Hi). }
+      destruct repl as [id'|] eqn:Er; [|apply Hinv; exact Hx].
+      destruct Hx as [<-|Hx]; [|apply Hinv; exact Hx].
+      destruct (Rp id' eq_refl) as [R1 [R2 R3]].
+      split; [destruct (live_id_file wf p id' (c_ginv _ _ Cf) Lp) as [c1 Hc1]; congruence|].
+      split; [exists p; exact Lp|congruence].
+    + assert (Hfl : forall x, In x l -> w_files wf x <> None).
+      { intros x Hx. unfold l in Hx. destruct repl as [id'|] eqn:Er; [|apply Fin; exact Hx].
+        destruct Hx as [<-|Hx]; [|apply Fin; exact Hx].
+        destruct (live_id_file wf p id' (c_ginv _ _ Cf) Lp) as [c1 Hc1]. congruence. }
+      destruct (cap_spec (upd cu p (disk p)) l wf Cf Hfl) as [w'' [E'' [_ [X'' [_ [_ [_ U'']]]]]]].
+      rewrite Hstep in E''. inv E''.
+      destruct (cap_published (upd cu p (disk p)) l wf w'' Cf Hfl Hstep) as [Mo _].
+      constructor; try assumption.
+      intros q x Hq. apply (mem_entries_fext wf w'' q x X'') in Hq. destruct (Nat.eq_dec q p) as [->|Hn]; [destruct (Nm x Hq)|].
+      rewrite (Io q Hn) in Hq. destruct (PO q x Hq) as [H1 H2].
+      split; [apply U''; apply Uf; exact H1|apply Mo; rewrite Pb; exact H2].
+Qed.
+
+Lemma run_pub : forall h cu bufs w w',
+  WInv cu bufs w -> PInv w -> Forall (op_respects rank) h -> client_ok bufs h = true ->
+  (purge_closed cf = true \/ no_close h) ->
+  run_from cf pick disk M w h = Ok w' -> PInv w'.
+Proof.
+  induction h as [|o h IH]; intros cu bufs w w' W P Hr Hc Hp E.
+  - cbn in E. inv E. exact P.
+  - inv Hr. cbn in Hc. apply andb_true_iff in Hc. destruct Hc as [Hc1 Hc2].
+    assert (Hcl : match o with Change p _ => bufs p <> None | _ => True end).
+    { destruct o; auto. destruct (bufs p); [discriminate|discriminate]. }
+    destruct (step_spec cu bufs w o W H1 Hcl) as [w1 [E1 W1]].
+    unfold run_from in E. cbn in E. rewrite E1 in E.
+    assert (P1 : PInv w1).
+    { apply (step_pub cu bufs w o w1 W P H1 Hcl); [|exact E1].
+      destruct Hp as [Hp|Hp]; [left; exact Hp|right]. inv Hp. destruct o; auto. }
+    apply (IH _ _ w1 w' W1 P1 H2 Hc2); [|exact E].
+    destruct Hp as [Hp|Hp]; [left; exact Hp|right]. inv Hp. assumption.
 Qed.
 
 End Inv.
